@@ -12,6 +12,9 @@ IR (JSON-able)
                                                             namespace-tag forms a list of [key, [["lit", s] | ["expr", src], ...]]
             | ["for", var, n, body]                         % for var in range(n):
             | ["block", [filter names], body]               <%block filter="...">
+            | ["nblock", name, sig, body]                   <%block name="..." args="sig">  (top level of the body only)
+    program may also have "page": parameter-list source (<%page args="..."/>) and "render_args": python source of the
+    argument list given to Template.render_unicode() besides the context values
     content = {"args": python parameter-list source, "named": [def...], "body": [stmt...]}
 
 call forms
@@ -65,6 +68,9 @@ def p_stmt(s):
         return "%% for %s in range(%d):\n%s%% endfor\n" % (s[1], s[2], p_block(s[3]))
     if k == "block":
         return '<%%block filter="%s">%s</%%block>' % (",".join(s[1]), p_block(s[2]))
+    if k == "nblock":
+        assert '"' not in s[2]
+        return '<%%block name="%s" args="%s">%s</%%block>' % (s[1], s[2], p_block(s[3]))
     if k == "call":
         _, form, name, args, content = s
         if form == "bare":
@@ -103,7 +109,11 @@ def p_def(d):
 
 
 def print_program(prog):
-    return "".join(p_def(d) for d in prog["defs"]) + p_block(prog["body"])
+    page = ""
+    if prog.get("page") is not None:
+        assert '"' not in prog["page"]
+        page = '<%%page args="%s"/>' % prog["page"]
+    return page + "".join(p_def(d) for d in prog["defs"]) + p_block(prog["body"])
 
 
 def template_kwargs(prog):
